@@ -89,8 +89,35 @@ func altClass(alt string) string {
 }
 
 // alterSig draws an alteration of a valid signature.
+// listRegion describes a part of the signature that encodes a list of positions followed by running
+// counts (the hint vector of Dilithium / ML-DSA: omega positions, then k counts): [end-width, end).
+type listRegion struct{ end, width int }
+
+func listRegionOf(s sign.Scheme) *listRegion {
+	n := s.SignatureSize()
+	switch s.Name() {
+	case "Dilithium2", "ML-DSA-44":
+		return &listRegion{n, 80 + 4}
+	case "Dilithium3", "ML-DSA-65":
+		return &listRegion{n, 55 + 6}
+	case "Dilithium5", "ML-DSA-87":
+		return &listRegion{n, 75 + 8}
+	case "Ed25519-Dilithium2":
+		return &listRegion{n - 64, 80 + 4}
+	case "Ed448-Dilithium3":
+		return &listRegion{n - 114, 55 + 6}
+	}
+	return nil
+}
+
+// sigRegion is set by the caller for schemes whose signatures contain a position list.
+var sigRegion *listRegion
+
 func alterSig(t *rapid.T, sig []byte, e *edScalar) (string, []byte) {
-	kinds := []string{"sig-bitflip", "sig-bitflip", "sig-truncate", "sig-append", "sig-empty", "sig-random", "sig-zero-window", "sig-double"}
+	kinds := []string{"sig-bitflip", "sig-bitflip", "sig-truncate", "sig-append", "sig-empty", "sig-random", "sig-zero-window", "sig-double", "sig-ramp"}
+	if sigRegion != nil {
+		kinds = append(kinds, "sig-ramp", "sig-ramp")
+	}
 	if e != nil {
 		kinds = append(kinds, "sig-S-plus-L", "sig-S-plus-L", "sig-S-boundary")
 	}
@@ -138,6 +165,41 @@ func alterSig(t *rapid.T, sig []byte, e *edScalar) (string, []byte) {
 		return fmt.Sprintf("sig-zero-window@%d/%d", off, w), o
 	case "sig-double":
 		return "sig-double", append(o, sig...)
+	case "sig-ramp":
+		// a window overwritten with an increasing (or constant, or decreasing) progression a, a+d, a+2d, … saturating
+		// at 0 and 255: sorted position lists and running counts that are well-formed but out of range
+		if len(o) == 0 {
+			return "sig-empty", o
+		}
+		end := len(o)
+		w := rapid.IntRange(1, min(300, len(o))).Draw(t, "rw")
+		if sigRegion != nil && sigRegion.end <= len(o) && rapid.IntRange(0, 3).Draw(t, "rlist") != 0 {
+			end, w = sigRegion.end, sigRegion.width
+			if rapid.IntRange(0, 3).Draw(t, "rpart") == 0 {
+				w = rapid.IntRange(1, w).Draw(t, "rw2")
+			}
+		} else if rapid.Bool().Draw(t, "rany") {
+			end = rapid.IntRange(w, len(o)).Draw(t, "rend")
+		}
+		a := rapid.IntRange(0, 255).Draw(t, "ra")
+		if rapid.Bool().Draw(t, "ra0") {
+			a = rapid.IntRange(0, 2).Draw(t, "ra1")
+		}
+		d := rapid.SampledFrom([]int{1, 1, 2, 3, 0, -1}).Draw(t, "rd")
+		for i := 0; i < w; i++ {
+			v := a + d*i
+			if v > 255 {
+				v = 255
+			}
+			if v < 0 {
+				v = 0
+			}
+			o[end-w+i] = byte(v)
+		}
+		if bytes.Equal(o, sig) {
+			o[end-1] ^= 1
+		}
+		return fmt.Sprintf("sig-ramp@%d/%d=%d+%d", end-w, w, a, d), o
 	case "sig-S-boundary":
 		// the scalar replaced by an exact boundary value of its range check: 0, 1, L-1, L, L+1, 2L, 2^k, all ones
 		v := new(big.Int)
@@ -305,7 +367,9 @@ func TestC02Schemes(t *testing.T) {
 
 				switch rapid.SampledFrom([]string{"sig", "sig", "sig", "msg", "key", "ctx", "pkbytes"}).Draw(t, "what") {
 				case "sig":
+					sigRegion = listRegionOf(s)
 					alt, sig2 := alterSig(t, sig, e)
+					sigRegion = nil
 					if bytes.Equal(sig2, sig) {
 						return
 					}
